@@ -371,6 +371,19 @@ func dedentLoopShape(w *World, lx *lexerModel, pop *ast.CallExpr) bool {
 			return false
 		}
 		for _, a := range en.assigns[obj] {
+			if vs, isVS := a.(*ast.ValueSpec); isVS {
+				// var previousIndent int (zero), or = 0
+				okZero := len(vs.Values) == 0
+				if len(vs.Values) == 1 && len(vs.Names) == 1 {
+					if tv, ok := info.Types[vs.Values[0]]; ok && tv.Value != nil && tv.Value.ExactString() == "0" {
+						okZero = true
+					}
+				}
+				if !okZero {
+					return false
+				}
+				continue
+			}
 			as, ok := a.(*ast.AssignStmt)
 			if !ok || len(as.Rhs) != 1 {
 				return false
